@@ -115,6 +115,11 @@ def check(out, ctx):
             classes["error:" + cls.split(":")[0]] += 1
             if cls.startswith("unclassified"):
                 out.broke("correspondence", "error message of the compiler is of no known class", payload)
+            elif cls.startswith("bad-ident:") and m[0] == "OK" and any(b > 127 for b in bytes.fromhex(cls[10:])):
+                # the compiler answered (an error value) about an identifier with non-ASCII characters: the model
+                # takes every non-ASCII byte as an identifier character (the XID_Start/XID_Continue tables of
+                # Unicode are not modelled), so it has no opinion here
+                classes["error:bad-ident(non-ascii, outside the model's alphabet)"] += 1
             elif m[0] != "ERR" or m[3] != cls or bytes.fromhex(m[2]).decode() != (rule or ""):
                 out.broke("correspondence", "the compiler reports %s in rule %s, the model %s" % (cls, rule, "\t".join(m[:4])), payload)
             else:
